@@ -142,6 +142,7 @@ func retryAlphabet(inSession bool, w *World) []histAnswer {
 		{Answer: env.Code("final-c1", 0xC1), Class: clsFinal, Code: 0xC1},
 		{Answer: env.Code("node-busy", 0xC0), Class: clsTemporary, Code: 0xC0},
 		{Answer: env.Code("timeout-code", 0xC3), Class: clsTemporary, Code: 0xC3},
+		{Answer: busyOtherRMCPSeq(), Class: clsTemporary, Code: 0xC0},
 		rawGarbage("garbage-short-rmcp", func(t *env.Transport, rx *ref.Rx) []byte { return []byte{0x06, 0x00, 0xFF} }),
 		rawGarbage("garbage-bad-checksum", func(t *env.Transport, rx *ref.Rx) []byte {
 			if rx == nil || rx.Msg == nil {
